@@ -1,11 +1,19 @@
 package main
 
 import (
+	realos "os"
+
 	"github.com/go-gts/gts/internal/verifsim/core"
 )
 
 func main() {
 	snapshotRegistries()
+	if len(realos.Args) > 1 && realos.Args[1] != "one" {
+		// error text printed by flags.Run of simulated processes
+		if f, err := realos.OpenFile("/dev/null", realos.O_WRONLY, 0); err == nil {
+			realos.Stderr = f
+		}
+	}
 	core.Main("e1", map[string]core.PropEngine{
 		"C13": c13Engine{},
 		"C14": c14Engine{},
